@@ -4,11 +4,91 @@
    octets (arbitrary).  [spec_validate] is the reference checker over the flat list of accepted
    records (Spec/ZoneValidS.v); it reports lower-cased names. *)
 From QV Require Import Base.Res Base.Octets Model.ZoneTree Model.ZoneValid Spec.ZoneLookupS Spec.ZoneValidS
-  Proofs.ZoneValidP.
+  Proofs.ZoneValidP Model.ZoneReal Spec.ZoneRealS Proofs.ZoneRealP.
+From QV Require Model.NameWire Model.RdataM Spec.NameWireS Spec.NameRepr Spec.RdataFormatS Spec.RdataEqS.
 
 (* the shared runner (Extract/ExZone.v) also extracts the RdataSet buffer model: keep it in this cone *)
 From QV Require Model.RdataBuf.
 
+
+(* ================================================================================================
+   The theorems for the REAL Rdata::equals and the REAL name parser.
+   Model side: [req_real] = Model/RdataM.v [equals] (C19's model of Rdata::equals) and [parse_real] =
+   Model/NameWire.v [parse_uncompressed_name _ true] (C14's model of Name::try_from_uncompressed_all)
+   followed by reading every non-root label of the resulting Name through [label_at].
+   Specification side: [spec_req] = the RFC characterisation of RDATA equality (Spec/RdataEqS.v) and
+   [spec_rdata_name] = "the whole RDATA is one uncompressed domain name" by the C14 decoding relation
+   (Spec/ZoneRealS.v).  Only hypothesis on the records: every RDATA is an octet string (u8 elements). *)
+
+(* what the parser instance is: the C14 model never panics; when it returns a Name, that Name is the
+   representation (offsets + wire form) of a valid label list, every label access succeeds and parse_real
+   returns that list; when it returns an error parse_real returns None *)
+Theorem c21_parse_real_is_parser : forall rd, wf_bytes rd ->
+  match NameWire.parse_uncompressed_name rd true with
+  | Ok (nm, l) => l = length rd /\
+                  exists ls, nm = NameRepr.name_of ls /\ RdataFormatS.valid_name ls /\ parse_real rd = Some ls
+  | Err _ => parse_real rd = None
+  | Panic => False
+  end.
+Proof. exact parse_real_faithful. Qed.
+
+(* and it accepts exactly the RDATA that is one uncompressed domain name, with that name *)
+Theorem c21_parse_real_spec : forall rd ls, wf_bytes rd ->
+  (parse_real rd = Some ls <-> NameWireS.decodes_uncompressed rd ls (length rd)).
+Proof.
+  intros rd ls Hwf. rewrite (parse_real_spec rd Hwf). apply spec_rdata_name_iff.
+Qed.
+
+Theorem c21_exact_real : forall apex cls wide recs z, Forall wf_record recs ->
+  zone_build req_real (zone_new apex cls wide) recs = Some z ->
+  forall l, zone_validate parse_real z = Ok l ->
+  exists l', spec_validate spec_req spec_rdata_name apex cls wide (accepted apex cls recs) = Some l' /\
+             forall i, In i (map norm_issue l) <-> In i l'.
+Proof. exact real_validate_exact. Qed.
+
+Theorem c21_err_real : forall apex cls wide recs z, Forall wf_record recs ->
+  zone_build req_real (zone_new apex cls wide) recs = Some z ->
+  (zone_validate parse_real z = Err InvalidRdata <->
+   spec_validate spec_req spec_rdata_name apex cls wide (accepted apex cls recs) = None) /\
+  zone_validate parse_real z <> Panic /\
+  (forall e, zone_validate parse_real z = Err e -> e = InvalidRdata).
+Proof. exact real_validate_err. Qed.
+
+(* Non-vacuity with the real instances: apex c. (IN, narrow): SOA twice in different letter case (ONE
+   RDATA: no TooManyApexSoas), apex NS NS.C. while the address record is owned by ns.c. (found: names
+   are case-insensitive), w.c. CNAME c. / CNAME C. (one RDATA: no DuplicateCname), a delegation
+   b.c. NS ns.B.C. without glue (MissingGlue), MX 10 MX.c. absent (MissingMxAddress).  A second zone whose
+   delegation NS RDATA is a name followed by one junk octet fails with InvalidRdata, as the reference says. *)
+Example c21_example_real :
+  let c := [99%N] in let b := [98%N] in
+  let w (l : list label) : bytes := flat_map (fun x => N.of_nat (length x) :: x) l ++ [0%N] in
+  let soa l := (w [[l; 115]; c] ++ w [[114]; c] ++ repeat 0 20)%N in
+  let recs :=
+    [ mk_record [c] 6 1 3600 (soa 110%N); mk_record [c] 6 1 3600 (soa 78%N);
+      mk_record [c] 2 1 3600 (w [[78; 83]; [67]])%N;
+      mk_record [[110; 115]; c]%N 1 1 3600 [127; 0; 0; 1]%N;
+      mk_record [[119%N]; c] 5 1 3600 (w [c]); mk_record [[119%N]; c] 5 1 3600 (w [[67%N]]);
+      mk_record [b; c] 2 1 3600 (w [[110; 115]; [66]; [67]])%N;
+      mk_record [c] 15 1 3600 ([0; 10] ++ w [[77; 88]; c])%N ] in
+  let bad := [ mk_record [c] 2 1 3600 (w [[110; 115]; c])%N;
+               mk_record [b; c] 2 1 3600 (w [[110; 115]; c] ++ [9])%N ] in
+  Forall wf_record recs /\
+  (exists z l, zone_build req_real (zone_new [c] 1 false) recs = Some z /\
+    zone_validate parse_real z = Ok l /\
+    (forall i, In i l <-> In i [MissingGlue [[110; 115]; [66]; [67]]%N; MissingMxAddress [[77; 88]; c]%N])) /\
+  (exists z, zone_build req_real (zone_new [c] 1 false) bad = Some z /\
+    zone_validate parse_real z = Err InvalidRdata /\
+    spec_validate spec_req spec_rdata_name [c] 1 false (accepted [c] 1 bad) = None).
+Proof.
+  cbv zeta. split; [|split].
+  - repeat constructor; apply wf_bytesb_spec; reflexivity.
+  - eexists. eexists. split; [vm_compute; reflexivity|]. split; [vm_compute; reflexivity|].
+    intros i. simpl. intuition.
+  - eexists. split; [vm_compute; reflexivity|]. split; vm_compute; reflexivity.
+Qed.
+
+(* ================================================================================================
+   Parametric library versions: any transitive RDATA equality, any name parser. *)
 Definition req_transitive (req : N -> N -> bytes -> bytes -> bool) : Prop :=
   forall cls ty a b c, req cls ty a b = true -> req cls ty b c = true -> req cls ty a c = true.
 
@@ -64,6 +144,10 @@ Proof.
   intros i. simpl. intuition.
 Qed.
 
+Print Assumptions c21_parse_real_is_parser.
+Print Assumptions c21_parse_real_spec.
+Print Assumptions c21_exact_real.
+Print Assumptions c21_err_real.
 Print Assumptions c21_exact.
 Print Assumptions c21_err.
 Print Assumptions c21_severity.
